@@ -96,6 +96,7 @@ class Spec:
         st.peer_hts = 4096
         st.resize_pending = False
         st.n_resizes = 0         # HEADER_TABLE_SIZE settings received since the last emitted header block (capped at 2)
+        st.local_hts = False
         out = [("handshaken", st)]
         if not self.client:
             # an h2c-upgraded server whose client announced HEADER_TABLE_SIZE=0 in the HTTP2-Settings header (and repeats it
@@ -113,11 +114,12 @@ class Spec:
             st2.h.wdec.max_allowed_table_size = 0
             st2.resize_pending = True
             st2.n_resizes = 1
+            st2.local_hts = False
             out.append(("upgraded-hts0", st2))
         return out
 
     def fingerprint(self, st):
-        return fingerprint(st.h.conn, st.h.m.key(), st.h.wdec, st.h.wdec_broken, st.dead, st.peer_hts, st.resize_pending, st.n_resizes)
+        return fingerprint(st.h.conn, st.h.m.key(), st.h.wdec, st.h.wdec_broken, st.dead, st.peer_hts, st.resize_pending, st.n_resizes, st.local_hts)
 
     def actions(self, st):
         if st.dead:
@@ -139,6 +141,9 @@ class Spec:
             acts.append("rx:hts:%d" % v)
         # the table size changes together with MAX_FRAME_SIZE (at its current value) in one SETTINGS frame
         acts += ["rx:hts:0:mfs", "rx:hts:64:mfs"]
+        if not st.local_hts:
+            # OUR HEADER_TABLE_SIZE raised to 8192 and acknowledged: it bounds the table of the peer's encoder - never ours
+            acts.append("l:hts8192+ack")
         # a header-carrying call whose output the application has not collected yet when the peer's SETTINGS arrives
         acts.append("h+hts:1:%s:64" % ("req" if self.client else "resp"))
         return acts
@@ -190,6 +195,18 @@ class Spec:
             if h.wdec_broken or viols:
                 st.dead = True
             return Step("h+hts", viols)
+        if lab == "l:hts8192+ack":
+            st.local_hts = True
+            o = h.api("update_settings", {wire.S_HEADER_TABLE_SIZE: 8192})
+            if o.kind != "ok":
+                st.dead = True
+                return Step("l-hts-refused", viols, prune=True)
+            for _ in range(2):      # (the first ACK may still be the one for the initial SETTINGS frame)
+                o = h.rx([wire.settings([], ack=True)])
+                if o.kind != "ok":
+                    st.dead = True
+                    return Step("ack-rejected", viols, prune=True)
+            return Step("l-hts+ack", viols)
         if parts[0] == "rx" and parts[1] == "hts":
             v = int(parts[2])
             pairs = [(wire.S_HEADER_TABLE_SIZE, v)]
